@@ -140,13 +140,184 @@ theorem foldl_addEdgeAuto : ∀ (es : List (Name × Name)) (c : Circuit),
     rw [has_congr (addEdge_nodes c e.1 e.2), has_congr (addEdge_nodes c e.1 e.2)]
     exact this
 
+/-! ### adding edges whose endpoints may be missing: the fast reader's floating nets -/
+
+/-- `add_edges_from` creates a missing endpoint without attributes -/
+def ensure (c : Circuit) (n : Name) : Circuit := if c.has n then c else { c with nodes := c.nodes ++ [(n, {})] }
+
+theorem addEdgeAuto_ensure (c : Circuit) (e : Name × Name) :
+    addEdgeAuto c e = ((ensure (ensure c e.1) e.2).addEdge e.1 e.2) := rfl
+
+theorem ensure_edges (c : Circuit) (n : Name) : (ensure c n).edges = c.edges := by
+  unfold ensure; split <;> rfl
+theorem ensure_name (c : Circuit) (n : Name) : (ensure c n).name = c.name := by
+  unfold ensure; split <;> rfl
+
+theorem ensure_has (c : Circuit) (n m : Name) : (ensure c n).has m = true ↔ c.has m = true ∨ m = n := by
+  unfold ensure
+  by_cases h : c.has n = true
+  · rw [if_pos h]
+    exact ⟨Or.inl, fun h' => h'.elim id (fun e => e ▸ h)⟩
+  · rw [if_neg h]
+    simp only [Circuit.has, List.any_append, List.any_cons, List.any_nil, Bool.or_false, Bool.or_eq_true, beq_iff_eq]
+    exact ⟨fun h' => h'.imp id Eq.symm, fun h' => h'.imp id Eq.symm⟩
+
+theorem ensure_nodup (c : Circuit) (n : Name) (hn : c.nodeNames.Nodup) : (ensure c n).nodeNames.Nodup := by
+  unfold ensure
+  by_cases h : c.has n = true
+  · rw [if_pos h]; exact hn
+  · rw [if_neg h]
+    show (List.map (·.1) (c.nodes ++ [(n, ({} : Attr))])).Nodup
+    rw [List.map_append, List.nodup_append]
+    refine ⟨hn, by simp, ?_⟩
+    intro a ha b hb e
+    simp only [List.map_cons, List.map_nil, List.mem_singleton] at hb
+    subst hb; subst e
+    exact h ((has_iff_mem c a).2 ha)
+
+theorem ensure_attr_old (c : Circuit) (n : Name) {m : Name} (hm : c.has m = true) : (ensure c n).attr? m = c.attr? m := by
+  unfold ensure
+  by_cases h : c.has n = true
+  · rw [if_pos h]
+  · rw [if_neg h]
+    unfold Circuit.attr?
+    simp only []
+    rw [has_eq_isSome] at hm
+    unfold Circuit.attr? at hm
+    cases hl : c.nodes.lookup m with
+    | none => rw [hl] at hm; cases hm
+    | some a => rw [List.lookup_append, hl]; rfl
+
+theorem ensure_attr_new (c : Circuit) (n : Name) (hn : c.has n = false) : (ensure c n).attr? n = some {} := by
+  unfold ensure
+  rw [if_neg (by rw [hn]; exact Bool.false_ne_true)]
+  unfold Circuit.attr?
+  simp only []
+  rw [List.lookup_append]
+  have : c.nodes.lookup n = none := attr?_none_of_not_has hn
+  rw [this]
+  simp [List.lookup]
+
+/-- the node lists `add_edges_from` passes through: names stay duplicate-free, old nodes keep their attributes, a node
+    created on the way has none -/
+theorem addEdgeAuto_step (c : Circuit) (e : Name × Name) (hn : c.nodeNames.Nodup) (he : c.edges.Nodup) :
+    (addEdgeAuto c e).nodeNames.Nodup ∧ (addEdgeAuto c e).edges.Nodup ∧ (addEdgeAuto c e).name = c.name ∧
+    (∀ x, x ∈ (addEdgeAuto c e).edges ↔ x ∈ c.edges ∨ x = e) ∧
+    (∀ m, (addEdgeAuto c e).has m = true ↔ c.has m = true ∨ m = e.1 ∨ m = e.2) ∧
+    (∀ m, c.has m = true → (addEdgeAuto c e).attr? m = c.attr? m) ∧
+    (∀ m, c.has m = false → (addEdgeAuto c e).has m = true → (addEdgeAuto c e).attr? m = some {}) := by
+  rw [addEdgeAuto_ensure]
+  have hnodes := addEdge_nodes (ensure (ensure c e.1) e.2) e.1 e.2
+  have hhas : ∀ m, ((ensure (ensure c e.1) e.2).addEdge e.1 e.2).has m = true ↔ c.has m = true ∨ m = e.1 ∨ m = e.2 := by
+    intro m
+    rw [has_congr hnodes, ensure_has, ensure_has, or_assoc]
+  have hold : ∀ m, c.has m = true → ((ensure (ensure c e.1) e.2).addEdge e.1 e.2).attr? m = c.attr? m := by
+    intro m hm
+    rw [attr?_congr hnodes, ensure_attr_old _ _ ((ensure_has c e.1 m).2 (Or.inl hm)), ensure_attr_old _ _ hm]
+  refine ⟨?_, ?_, ?_, ?_, hhas, hold, ?_⟩
+  · rw [nodeNames_congr hnodes]
+    exact ensure_nodup _ _ (ensure_nodup _ _ hn)
+  · apply addEdge_nodup
+    rw [ensure_edges, ensure_edges]; exact he
+  · rw [addEdge_name, ensure_name, ensure_name]
+  · intro x
+    rw [addEdge_mem, ensure_edges, ensure_edges]
+  · intro m hm h2
+    rw [attr?_congr hnodes]
+    by_cases h1 : (ensure c e.1).has m = true
+    · rw [ensure_attr_old _ _ h1]
+      rcases (ensure_has c e.1 m).1 h1 with h | h
+      · rw [hm] at h; cases h
+      · subst h; exact ensure_attr_new c _ hm
+    · have h1' : (ensure c e.1).has m = false := by simpa using h1
+      rcases (hhas m).1 h2 with h | h | h
+      · rw [hm] at h; cases h
+      · exact absurd ((ensure_has c e.1 m).2 (Or.inr h)) h1
+      · subst h; exact ensure_attr_new _ _ h1'
+
+theorem foldl_addEdgeAuto_spec : ∀ (es : List (Name × Name)) (c : Circuit), c.nodeNames.Nodup → c.edges.Nodup →
+    (es.foldl addEdgeAuto c).nodeNames.Nodup ∧ (es.foldl addEdgeAuto c).edges.Nodup ∧
+    (es.foldl addEdgeAuto c).name = c.name ∧
+    (∀ x, x ∈ (es.foldl addEdgeAuto c).edges ↔ x ∈ c.edges ∨ x ∈ es) ∧
+    (∀ m, (es.foldl addEdgeAuto c).has m = true ↔ c.has m = true ∨ ∃ e ∈ es, m = e.1 ∨ m = e.2) ∧
+    (∀ m, c.has m = true → (es.foldl addEdgeAuto c).attr? m = c.attr? m) ∧
+    (∀ m, c.has m = false → (es.foldl addEdgeAuto c).has m = true → (es.foldl addEdgeAuto c).attr? m = some {})
+  | [], c, hn, he => ⟨hn, he, rfl, fun x => by simp, fun m => by simp, fun _ _ => rfl,
+      fun m h1 h2 => by rw [List.foldl_nil] at h2; rw [h1] at h2; cases h2⟩
+  | e :: es, c, hn, he => by
+    obtain ⟨s1, s2, s3, s4, s5, s6, s7⟩ := addEdgeAuto_step c e hn he
+    obtain ⟨i1, i2, i3, i4, i5, i6, i7⟩ := foldl_addEdgeAuto_spec es (addEdgeAuto c e) s1 s2
+    rw [List.foldl_cons]
+    refine ⟨i1, i2, by rw [i3, s3], ?_, ?_, ?_, ?_⟩
+    · intro x
+      rw [i4, s4, List.mem_cons, or_assoc]
+    · intro m
+      rw [i5, s5]
+      constructor
+      · rintro ((h | h) | ⟨e', he', h⟩)
+        · exact Or.inl h
+        · exact Or.inr ⟨e, by simp, h⟩
+        · exact Or.inr ⟨e', by simp [he'], h⟩
+      · rintro (h | ⟨e', he', h⟩)
+        · exact Or.inl (Or.inl h)
+        · rcases List.mem_cons.1 he' with rfl | he'
+          · exact Or.inl (Or.inr h)
+          · exact Or.inr ⟨e', he', h⟩
+    · intro m hm
+      rw [i6 m ((s5 m).2 (Or.inl hm)), s6 m hm]
+    · intro m hm hm'
+      by_cases h1 : (addEdgeAuto c e).has m = true
+      · rw [i6 m h1]; exact s7 m hm h1
+      · exact i7 m (by simpa using h1) hm'
+
+/-- nodes without a type (created as edge endpoints) become undriven buffers -/
+def fillBuf (c : Circuit) : Circuit :=
+  { c with nodes := c.nodes.map (fun p =>
+      if p.2.ty.isNone then (p.1, { p.2 with ty := some "buf", out := some false }) else p) }
+
+def fillAttr (a : Attr) : Attr := if a.ty.isNone then { a with ty := some "buf", out := some false } else a
+
+theorem fillBuf_nodes (c : Circuit) : (fillBuf c).nodes = c.nodes.map (fun p => (p.1, fillAttr p.2)) := by
+  unfold fillBuf fillAttr
+  simp only []
+  apply List.map_congr_left
+  intro p _
+  split <;> rfl
+
+theorem fillBuf_nodeNames (c : Circuit) : (fillBuf c).nodeNames = c.nodeNames := by
+  unfold Circuit.nodeNames
+  rw [fillBuf_nodes, List.map_map]
+  rfl
+
+theorem lookup_map_snd' {β γ : Type} (f : β → γ) : ∀ (l : List (Name × β)) (k : Name),
+    (l.map (fun p => (p.1, f p.2))).lookup k = (l.lookup k).map f
+  | [], _ => rfl
+  | p :: l, k => by
+    rw [List.map_cons, List.lookup_cons, List.lookup_cons]
+    cases k == p.1
+    · exact lookup_map_snd' f l k
+    · rfl
+
+theorem fillBuf_attr (c : Circuit) (n : Name) : (fillBuf c).attr? n = (c.attr? n).map fillAttr := by
+  unfold Circuit.attr?
+  rw [fillBuf_nodes, lookup_map_snd']
+
+theorem fillBuf_has (c : Circuit) (n : Name) : (fillBuf c).has n = c.has n := by
+  rw [has_eq_isSome, has_eq_isSome, fillBuf_attr]
+  cases c.attr? n <;> rfl
+
+theorem fillAttr_of_ty {a : Attr} {t : String} (h : a.ty = some t) : fillAttr a = a := by
+  unfold fillAttr; rw [h]; rfl
+
 /-! ### `assemble` split after the bookkeeping -/
 
 def finish (name : String) (ins outs : List Name) (a2 : Acc) : E Circuit :=
   let g0 := addNodes { name := name } ins "input" none
   let g1 := (g0.addNodeAttr "tie0" { ty := some "0" }).addNodeAttr "tie1" { ty := some "1" }
   let g2 := a2.nets.foldl (fun c kv => addNodes c kv.2 kv.1 (some false)) g1
-  let g3 := a2.edges.foldl addEdgeAuto g2
+  let g3e := a2.edges.foldl addEdgeAuto g2
+  let g3 : Circuit := { g3e with nodes := g3e.nodes.map (fun p =>
+    if p.2.ty.isNone then (p.1, { p.2 with ty := some "buf", out := some false }) else p) }
   outs.foldlM (fun (c : Circuit) o => if c.has o then pure (c.setOutRaw o true) else .error .keyError) g3 >>= fun g4 =>
   let g5 := if (g4.fanout "tie0").isEmpty then g4.removeNode "tie0" else g4
   let g6 := if (g5.fanout "tie1").isEmpty then g5.removeNode "tie1" else g5
@@ -168,7 +339,7 @@ theorem setOutStep_eq :
 theorem finish_eq (name : String) (ins outs : List Name) (a2 : Acc) :
     finish name ins outs a2 =
       (outs.foldlM (fun c o => liftO (c.setOutput [o] true))
-          (a2.edges.foldl addEdgeAuto (addAll (nodeList ins a2.nets) { name := name })) >>= fun g4 =>
+          (fillBuf (a2.edges.foldl addEdgeAuto (addAll (nodeList ins a2.nets) { name := name }))) >>= fun g4 =>
         pure { VR.dropTie (VR.dropTie g4 "tie0") "tie1" with bbs := a2.bbs }) := by
   unfold finish
   simp only []
